@@ -255,6 +255,8 @@ class Recorder:
                 self._undo.append((cls, "sample_batch", orig))
 
         for cls in (BaseLoss, LikelihoodLoss):
+            if "compute_loss" not in cls.__dict__:
+                continue
             orig = cls.__dict__["compute_loss"]
 
             def make(orig):
@@ -273,7 +275,8 @@ class Recorder:
             self._undo.append((cls, "compute_loss", orig))
 
         for cls in (RoundRobinScheduler, RLScheduler):
-            orig = cls.__dict__["get_next_sampler"]
+            orig = cls.get_next_sampler  # wherever in the MRO it is defined; the wrapper is installed on the concrete class
+            had_own = "get_next_sampler" in cls.__dict__
 
             def make(orig):
                 def get_next_sampler(self_):
@@ -284,12 +287,15 @@ class Recorder:
                 return get_next_sampler
 
             setattr(cls, "get_next_sampler", make(orig))
-            self._undo.append((cls, "get_next_sampler", orig))
+            self._undo.append((cls, "get_next_sampler", orig if had_own else None))
         return self
 
     def __exit__(self, *a):
         for cls, name, orig in reversed(self._undo):
-            setattr(cls, name, orig)
+            if orig is None:
+                delattr(cls, name)
+            else:
+                setattr(cls, name, orig)
         self._undo = []
 
 
